@@ -8,7 +8,7 @@
    a library contract (distance to the nearest other row; validated against brute force by C03/C14). *)
 From Coq Require Import Reals List ZArith Lra Permutation.
 From Coquelicot Require Import Coquelicot.
-From MellonV Require Import ALists AKernels AKExpr ACovFunc AInference AKernelsThm ADistThm AInferenceThm C08Thm.
+From MellonV Require Import ALists AKernels AKExpr ACovFunc AInference AKernelsThm ADistThm AInferenceThm C08Thm C08OrthThm.
 From MellonV Require C08MxThm.
 Import ListNotations.
 
@@ -19,6 +19,17 @@ Open Scope R_scope.
 Theorem C08_sqdist_isometry : forall n Q t a b, orthogonal n Q -> length t = n -> length a = n -> length b = n ->
   sqdist (vadd (matvec Q a) t) (vadd (matvec Q b) t) = sqdist a b.
 Proof. exact sqdist_isometry. Qed.
+
+(* the same under the literal hypothesis Q^T Q = I (columns of Q orthonormal, entry by entry) *)
+Theorem C08_sqdist_isometry_entries : forall n Q t a b, orth_entries n Q -> length t = n -> length a = n -> length b = n ->
+  sqdist (vadd (matvec Q a) t) (vadd (matvec Q b) t) = sqdist a b.
+Proof. exact sqdist_isometry_entries. Qed.
+
+Theorem C08_isometry_of_orthogonal_and_translation : forall n Q t, orth_entries n Q -> length t = n ->
+  isometry n (fun x => vadd (matvec Q x) t).
+Proof.
+  exact (fun n Q t HQ Ht => isometry_compose n _ _ (isometry_orthogonal n Q (orthogonal_from_entries n Q HQ)) (isometry_translate n t Ht)).
+Qed.
 
 Theorem C08_distance_entry_isometry : forall n T a b, isometry n T -> length a = n -> length b = n ->
   distance_entry (sumsq (T a)) (dot (T a) (T b)) (sumsq (T b)) = distance_entry (sumsq a) (dot a b) (sumsq b).
@@ -113,6 +124,8 @@ Proof. exact loss_permutation. Qed.
 End RealPart.
 
 Print Assumptions C08_sqdist_isometry.
+Print Assumptions C08_sqdist_isometry_entries.
+Print Assumptions C08_isometry_of_orthogonal_and_translation.
 Print Assumptions C08_distance_entry_isometry.
 Print Assumptions C08_gram_isometry.
 Print Assumptions C08_nn_distances_isometry.
